@@ -1279,16 +1279,15 @@ impl ArchiveBuilder {
                 flags |= BlockEntry::FLAG_SECTOR_CRC;
             }
 
-            // Reserve space for sector offset table and CRC table if enabled
-            let offset_table_size = (sector_count + 1) * 4;
-            let crc_table_size = if self.generate_crcs {
-                sector_count * 4
-            } else {
-                0
-            };
-            let data_start = offset_table_size + crc_table_size;
+            // Sector offset table: sector_count + 1 entries, plus one for the checksum sector.
+            // MPQ layout of sector checksums: one extra sector behind the data sectors holding an
+            // ADLER32 per sector of the sector as stored (after compression, before encryption);
+            // that sector is never encrypted and, like every sector, counted in the block size.
+            let table_entries = sector_count + 1 + usize::from(self.generate_crcs);
+            let offset_table_size = table_entries * 4;
+            let data_start = offset_table_size;
 
-            let mut sector_offsets = vec![0u32; sector_count + 1];
+            let mut sector_offsets = vec![0u32; table_entries];
             let mut sector_data = Vec::new();
             let mut sector_crcs = if self.generate_crcs {
                 Vec::with_capacity(sector_count)
@@ -1303,13 +1302,6 @@ impl ArchiveBuilder {
                 let sector_bytes = &file_data[sector_start..sector_end];
 
                 *offset = (data_start + sector_data.len()) as u32;
-
-                // Calculate CRC for uncompressed sector if enabled
-                if self.generate_crcs {
-                    // MPQ uses ADLER32 for sector checksums
-                    let crc = adler2::adler32_slice(sector_bytes);
-                    sector_crcs.push(crc);
-                }
 
                 // Compress sector if needed
                 let compressed_sector = if *compression != 0 && !sector_bytes.is_empty() {
@@ -1328,11 +1320,20 @@ impl ArchiveBuilder {
                     sector_bytes.to_vec()
                 };
 
+                if self.generate_crcs {
+                    // MPQ uses ADLER32 for sector checksums, taken over the stored sector
+                    sector_crcs.push(adler2::adler32_slice(&compressed_sector));
+                }
+
                 sector_data.extend_from_slice(&compressed_sector);
             }
 
-            // Set last offset
+            // Set last offset(s)
             sector_offsets[sector_count] = (data_start + sector_data.len()) as u32;
+            if self.generate_crcs {
+                sector_offsets[sector_count + 1] =
+                    sector_offsets[sector_count] + (sector_count * 4) as u32;
+            }
 
             // Log CRC generation if enabled
             if self.generate_crcs {
@@ -1362,7 +1363,7 @@ impl ArchiveBuilder {
 
                 // Encrypt each sector using the original (unencrypted) offsets
                 let mut encrypted_sectors = Vec::new();
-                for (i, offset_pair) in original_offsets.windows(2).enumerate() {
+                for (i, offset_pair) in original_offsets.windows(2).enumerate().take(sector_count) {
                     let start = (offset_pair[0] - data_start as u32) as usize;
                     let end = (offset_pair[1] - data_start as u32) as usize;
 
@@ -1380,18 +1381,16 @@ impl ArchiveBuilder {
                 writer.write_u32_le(*offset)?;
             }
 
-            // Write CRC table if enabled
-            if self.generate_crcs {
-                for crc in &sector_crcs {
-                    writer.write_u32_le(*crc)?;
-                }
-            }
-
             // Write sector data
             writer.write_all(&sector_data)?;
 
-            // Return size NOT including CRC table (offset table + sector data only)
-            let total_size = offset_table_size + sector_data.len();
+            // Write the checksum sector (stored raw, never encrypted)
+            for crc in &sector_crcs {
+                writer.write_u32_le(*crc)?;
+            }
+
+            // Block size: offset table + sectors + checksum sector
+            let total_size = offset_table_size + sector_data.len() + sector_crcs.len() * 4;
             Ok((total_size, flags))
         }
     }
